@@ -21,7 +21,14 @@ var rules = map[string]string{
 	"C03": "history, then one state-changing call (Put/Delete/Sync/Compact/Close) interrupted at a random file-system event boundary or 512-aligned offset inside a segment write; reopen; contents must be those before or after the call; later session and a second recovery checked",
 	"C04": "chains of 1-5 (history, crash point) epochs incl. crash points inside the recovering Open; after every recovery contents, segment sizes and file lengths are compared with model and reference",
 	"C05": "random fill with tiny segments, Compact stepped yield point by yield point with Put/Delete inserted at the yield points, optional crash inside; full comparison after, and again after an unclean reopen",
+	"C06": "histories with Sync at random points (both sync modes), rollover, compaction, an earlier recovery; at sampled instants (after any file-system event) power-loss images are built from the recorded calls: nothing unsynced / everything / one file keeps j pending operations with the next write cut at sector boundaries / random mixtures; each image is reopened and every key must hold its value as of the last completed Sync or a later write",
+	"C09": "history, Close, next Open; power-loss images at every file-system event from the return of Close to the completion of the next Open; each image must reopen to exactly the closed contents",
 	"C08": "database + one of 8 kinds of damaged tail appended to a random segment (zeroes, strict prefix, bit flip in key/value/crc, garbage, valid-after-damaged, complete unacknowledged record, flip in length fields, huge claimed sizes); recovering Open compared with an independent decoder of the documented format and with the Coq reader",
+}
+
+var specialGens = map[string]func(r *rng, tier string, res *Result){
+	"C06": genPowerLoss("C06"),
+	"C09": genPowerLoss("C09"),
 }
 
 func runCheck(args []string) int {
@@ -34,13 +41,21 @@ func runCheck(args []string) int {
 	noModel := fl.Bool("nomodel", false, "skip the model comparison")
 	_ = fl.Parse(args[1:])
 	modelBin = *model
+	r := &rng{*seed*0x9e3779b97f4a7c15 + 12345}
+	res := &Result{Property: prop, Seed: *seed, Tier: *tier, Rule: rules[prop]}
+	if sg, ok := specialGens[prop]; ok {
+		sg(r, *tier, res)
+		writeResult(res, *out)
+		if len(res.Findings) > 0 {
+			return 1
+		}
+		return 0
+	}
 	gen, ok := gens[prop]
 	if !ok {
 		fmt.Fprintln(os.Stderr, "no generator for", prop)
 		return 2
 	}
-	r := &rng{*seed*0x9e3779b97f4a7c15 + 12345}
-	res := &Result{Property: prop, Seed: *seed, Tier: *tier, Rule: rules[prop]}
 	var cases []*Case
 	var impls [][][]string
 	gen(r, *tier, func(g *G) {
